@@ -325,6 +325,7 @@ def _worker(job):
     repo, prop, v, what, oe, oj = job
     if repo != C.REPO:
         C.set_repo(repo)
+    J.ORDER = max(9, max(oe, oj) + 6)       # margin for the divisions by e^k (k <= 6) in the closed forms
     col = _Collector()
     try:
         n = analyse(col, prop, v, set(what), oe, oj)
@@ -339,16 +340,20 @@ def check(rep, prop, what, variants=None, order_exp=5, order_jac=4):
     variants = list(variants or TAN)
     FX.get(variants[0])     # plugin / cache sanity in the parent (fails early with a clear message)
     jobs = []
+    deep = C.tier() == "thorough"
+    INVERSES = {"rjacinv", "ljacinv", "logjac"}     # rational-function heavy: keep the quick orders
     for v in variants:
-        if TAN[v][2] >= 6:        # large groups: one process per function
-            jobs += [(C.REPO, prop, v, [w], order_exp, order_jac) for w in sorted(what)]
-        else:
-            jobs.append((C.REPO, prop, v, sorted(what), order_exp, order_jac))
+        for w in sorted(what):     # one process per (group, function)
+            oe, oj = order_exp, order_jac
+            if deep and w not in INVERSES:
+                oe, oj = order_exp + 2, order_jac + 2
+            jobs.append((C.REPO, prop, v, [w], oe, oj))
     jobs.sort(key=lambda j: -TAN[j[2]][2])
     ctx = mp.get_context("fork")
     with ctx.Pool(min(len(jobs), 12)) as pool:
         res = pool.map(_worker, jobs, chunksize=1)
     total = 0
+    rep.section("series", tier=C.tier(), jobs=[{"variant": j[2], "function": j[3][0], "order": (j[4] if j[3][0] in ("exp", "log") else j[5])} for j in jobs])
     for v, n, n_ok, findings, broke in res:
         if broke:
             rep.broke(broke)
@@ -356,6 +361,6 @@ def check(rep, prop, what, variants=None, order_exp=5, order_jac=4):
         for f in findings:
             rep.fail(f)
         total += n
-        rep.sample({"rule": "R-SERIES", "variant": v, "cells_compared": n,
-                    "orders": {"exp/log": order_exp, "jacobians": order_jac}})
+        if len([x for x in rep.samples if isinstance(x, dict) and x.get("rule") == "R-SERIES"]) < 6:
+            rep.sample({"rule": "R-SERIES", "variant": v, "cells_compared": n})
     return total
